@@ -156,6 +156,8 @@ def _ga_rules(rep, prog):
 
 
 def _window_rules(rep, prog):
+    from ..rules import window
+    window.forward(rep, prog, 'WINDOW')
     ini = prog.fn('bxdecay0::decay0_generator::initialize')
     F = cppflow.Flow(ini, helpers=cppflow.private_helpers(prog, ini, exclude=('_init_', '_reset_')))
     g = [b for b, arm in F.throw_guards() if cppflow.mentions(b.stmt[1], '_energy_min_')
